@@ -20,7 +20,10 @@ fragment; they are re-exported here under their former names `Portus.C01.*`. A p
 value* inside an expression, provided no operator reads, as its left operand, a variable that its right operand
 assigns (operand registers are read when the consuming instruction runs, DESIGN 6.3: there the datapath sees the
 later value and the documentation is silent), and the nested target is an ordinary variable (not a built-in register,
-whose write transforms the value). On such programs the source semantics is unambiguous; the check compares it with
+whose write transforms the value). A guarded bind `(:= y (if c v))` / `(:= y (!if c v))` / `(:= y (ewma a v))` may
+occur as a value under the same discipline (its result register is the register of `y`; its two operands are
+hazard-free against each other, as at statement level; non-vacuity: `guardedNestedSrc_*` in `C01Sim.lean`).
+On such programs the source semantics is unambiguous; the check compares it with
 what the real datapath computes, and the theorem proves that the compiled code computes it. -/
 
 export Portus.Lang.Frag (writesIn resultName noHazard valueE stmtOk2 InOracle writesIn_pure valueE_of_pure
